@@ -31,7 +31,7 @@ static std::vector<Val> int_values(const std::string &len, bool is_signed, Rng &
 
 static uint64_t g_mismatches = 0;
 
-struct Case { std::string fmt; std::vector<uint64_t> slots; std::string key, desc, expected_override; };
+struct Case { std::string fmt; std::vector<uint64_t> slots; std::string key, desc, expected_override; bool use_override = false; };
 
 static std::vector<std::unique_ptr<GuardedBuf>> g_strs;
 static uint64_t str_slot(const std::string &s) {
@@ -46,11 +46,18 @@ static uint64_t wstr_slot(const std::wstring &s) { // ASCII-only wide strings: t
 	return (uint64_t)g_strs.back()->data();
 }
 
+// a character array of exactly n elements with NO terminator behind it (the byte after it is unaddressable): what "%.Ns" may be given
+static uint64_t unterminated_slot(size_t n, bool wide) {
+	if(wide) { std::wstring z(n, L'u'); for(size_t i = 0; i < n; i++) z[i] = L'a' + (wchar_t)(i % 26); g_strs.emplace_back(new GuardedBuf(z.data(), n * sizeof(wchar_t))); }
+	else { std::string z(n, 'u'); for(size_t i = 0; i < n; i++) z[i] = (char)('a' + i % 26); g_strs.emplace_back(new GuardedBuf(z.data(), n)); }
+	return (uint64_t)g_strs.back()->data();
+}
+
 static void compare(const Case &c, bool informational = false) {
 	std::string z = c.fmt; z.push_back('\0');
 	GuardedBuf gf(z.data(), z.size());
 	case_detail("format \"%s\" with %zu argument slots", c.fmt.c_str(), c.slots.size());
-	std::string exp = c.expected_override.empty() ? run_glibc(gf.data(), c.slots) : c.expected_override;
+	std::string exp = (c.expected_override.empty() && !c.use_override) ? run_glibc(gf.data(), c.slots) : c.expected_override;
 	FriggResult fr = run_frigg(gf.data(), c.slots);
 	count("printf_directives_compared");
 	if(fr.panicked) {
@@ -99,14 +106,31 @@ static void printf_grid() {
 				if(w == "*") pre.push_back((uint64_t)(uint32_t)r.pick(std::vector<int>{0, 1, 7, 20, -1, -7, -20}) | (r.next() << 32));
 				if(p == ".*") pre.push_back((uint64_t)(uint32_t)r.pick(std::vector<int>{0, 1, 4, 15, -1, -6}) | (r.next() << 32));
 				std::string fmt = "%" + flags + wtxt + p + len + std::string(1, conv);
-				std::vector<Val> vals;
+				std::vector<Val> vals; std::vector<size_t> unterminated_len;
 				if(is_int) vals = int_values(len, is_signed, r, my % 2);
 				else if(conv == 'c') vals = {{'a', "pos"}, {(uint64_t)'Z' | 0xabcdef00ull << 8, "pos"}};
 				else if(wide_s) vals = {{wstr_slot(L""), "zero"}, {wstr_slot(L"a"), "pos"}, {wstr_slot(L"hello world"), "pos"}, {wstr_slot(std::wstring(80, L'x')), "pos"}};
 				else if(conv == 's') vals = {{str_slot(""), "zero"}, {str_slot("a"), "pos"}, {str_slot("hello world"), "pos"}, {str_slot(std::string(80, 'x')), "pos"}};
 				else vals = {{0, "zero"}, {0xdeadbeefull, "pos"}, {~0ull, "pos"}, {0x7ffc12345678ull, "pos"}};
+				// ISO C: with a precision, %s takes an array that need not be terminated; at most `precision` elements are read
+				if(conv == 's' && p != "") {
+					long pv = p == ".*" ? (long)(int32_t)(uint32_t)pre.back() : (p == "." ? 0 : atol(p.c_str() + 1));
+					if(pv >= 0 && pv <= 200) { vals.push_back({unterminated_slot((size_t)pv, wide_s), "unterminated"}); unterminated_len.push_back((size_t)pv); if(pv >= 1) { vals.push_back({unterminated_slot((size_t)pv + 3, wide_s), "unterminated"}); unterminated_len.push_back((size_t)pv + 3); } count("printf_unterminated_string_arguments"); }
+				}
+				size_t ui = 0;
 				for(auto &v : vals) {
 					Case c; c.fmt = fmt; c.slots = pre; c.slots.push_back(v.slot);
+					if(!strcmp(v.cls, "unterminated")) {
+						// the reference runs on a terminated copy of the same characters (the sanitizer's own printf interceptor looks for
+						// a terminator); with the precision in force both denote the same output
+						size_t n = unterminated_len[ui++];
+						std::vector<uint64_t> rs = pre;
+						if(wide_s) { std::wstring z(n, L'u'); for(size_t i = 0; i < n; i++) z[i] = L'a' + (wchar_t)(i % 26); rs.push_back(wstr_slot(z)); }
+						else { std::string z(n, 'u'); for(size_t i = 0; i < n; i++) z[i] = (char)('a' + i % 26); rs.push_back(str_slot(z)); }
+						std::string zf = fmt; zf.push_back('\0'); GuardedBuf gz(zf.data(), zf.size());
+						c.expected_override = run_glibc(gz.data(), rs);
+						c.use_override = true;
+					}
 					std::string wc = w == "" ? "none" : w == "*" ? "star" : (atoi(w.c_str()) <= 2 ? "small" : "large");
 					std::string pc = p == "" ? "none" : p == ".*" ? "star" : (p == "." || p == ".0") ? "zero" : (atoi(p.c_str() + 1) <= 3 ? "small" : "large");
 					c.key = strf("%c/flags=%s/width=%s/prec=%s/len=%s/value=%s", conv, flags.c_str(), wc.c_str(), pc.c_str(), len.empty() ? "-" : len.c_str(), v.cls);
